@@ -16,7 +16,9 @@ T1 == << [text |-> <<"a">>, code |-> <<1>>], [text |-> <<"b">>, code |-> <<2>>],
          \* an entry for the character that opens the raw-byte escape: [0xNN] still emits the raw byte
          [text |-> <<"[">>, code |-> <<91>>] >>
 T2 == << [text |-> <<"a">>, code |-> <<17>>], [text |-> <<"b", "a">>, code |-> <<18, 19>>] >>
-Items == { [k |-> "table", t |-> 1], [k |-> "table", t |-> 2], [k |-> "text", s |-> S1], [k |-> "text", s |-> S2], [k |-> "text", s |-> S3],
+\* only single characters with one-byte codes (escapes and unknown characters still change the size)
+T3 == << [text |-> <<"a">>, code |-> <<33>>], [text |-> <<"b">>, code |-> <<34>>] >>
+Items == { [k |-> "table", t |-> 1], [k |-> "table", t |-> 2], [k |-> "table", t |-> 3], [k |-> "text", s |-> S1], [k |-> "text", s |-> S2], [k |-> "text", s |-> S3],
            [k |-> "open"], [k |-> "close"], [k |-> "ifopen"], [k |-> "ifclose"] }
 
 VARIABLES items, stk
@@ -31,5 +33,5 @@ Next == /\ Len(items) < MaxItems
              /\ Len(items) + 1 + Len(stk') <= MaxItems
              /\ items' = Append(items, it)
 HasText == \E j \in 1..Len(items) : items[j].k = "text"
-Emit == (stk = <<>> /\ HasText) => PrintT(ToJson([items |-> items, tables |-> <<T1, T2>>]))
+Emit == (stk = <<>> /\ HasText) => PrintT(ToJson([items |-> items, tables |-> <<T1, T2, T3>>]))
 =============================================================================
